@@ -117,6 +117,55 @@ def run(prog, rep, tier='quick', config='default'):
                                   detail='a row is indexed with a value that does not come (unmodified) from the header-name map')
     if n_idx == 0:
         rep.violation('R18c', 'anchor-lost:row-index-site', detail='anchor lost: no slice access on a row of cells found in peripheral::excel')
+    # R18d: every trade row in a foreign currency gets its implicit FX leg
+    fxt_sites = [c for f in qt + [g for f in qt for g in prog.closures_of(f)] for c in f.calls if c.short == 'add_implicit_fxt']
+    seen = set()
+    fxt_sites = [c for c in fxt_sites if not ((c.fn.name, c.bb) in seen or seen.add((c.fn.name, c.bb)))]
+    if not fxt_sites:
+        rep.violation('R18d', 'anchor-lost:implicit-fxt-call', detail='anchor lost: the converter no longer calls FxTracker::add_implicit_fxt')
+    for n_s, c in enumerate(fxt_sites, 1):
+        f = c.fn
+        pushes = [x for x in f.calls if x.short == 'push' and 'broker_tx::BrokerTx' in f.ty.get(x.arg_local(0), '') and f.dominates(x.bb, c.bb)]
+        k = '%s|foreign-trade-always-gets-its-fx-leg#%d' % (f.name.split('::{')[0], n_s)
+        if not pushes:
+            rep.violation('R18d', k, where=c.where(), fn=f.name, detail='anchor lost: the trade row is not recorded before its FX leg is added')
+            continue
+        base = {(sbb, tuple(vals or ()), tuple(neg or ())) for (sbb, d, vals, neg) in f.conditions_at(pushes[-1].bb)}
+        extra = []
+        for (sbb, discr, vals, neg) in f.conditions_at(c.bb):
+            if (sbb, tuple(vals or ()), tuple(neg or ())) in base:
+                continue
+            d = mir.provenance(f, discr, pass_through={'deref', 'borrow', 'as_ref', 'clone'})
+            only_currency = d.calls and all(x.short in ('is_default', 'deref', 'borrow', 'as_ref', 'clone', 'eq', 'ne') and
+                                            ('Currency' in f.ty.get(x.arg_local(0), '') or x.short in ('deref', 'borrow', 'as_ref', 'clone'))
+                                            for x in d.calls)
+            if not only_currency:
+                extra.append((sbb, d))
+        if extra:
+            sbb, d = extra[0]
+            rep.violation('R18d', k, where=f.where(f.blocks[sbb]['term']), fn=f.name,
+                          detail='after a trade row is recorded, its implicit FX leg is added only under a further condition that is not about the '
+                                 'row\'s currency: a foreign-currency row that moves cash can be left without its FX counter-row, and the currency '
+                                 'total no longer equals the net cash flow')
+        else:
+            rep.ok('R18d', k, where=c.where(), fn=f.name,
+                   detail='between recording the trade row and add_implicit_fxt only the "currency is not CAD" test decides')
+
+    # R18e: numeric cells are converted with the shortest-representation conversion
+    retain = [c for f in prog.product_fns() for c in f.calls if re.search(r'Decimal::from_f(64|32)_retain$', c.callee)]
+    if retain:
+        c = retain[0]
+        rep.violation('R18e', '%s|no-binary-float-expansion' % c.fn.name, where=c.where(), fn=c.fn.name,
+                      detail='%s keeps the full binary expansion of a float (10.1 becomes 10.0999999999999996447...): quantities, prices and '
+                             'amounts read from numeric cells would no longer be the numbers in the sheet' % short(c.callee))
+    else:
+        n_conv = len([c for f in excel for c in f.calls if re.search(r'Decimal::from_f(64|32)$|FromPrimitive::from_f(64|32)$|from_str', c.callee + ' ' + c.decl)])
+        if n_conv:
+            rep.ok('R18e', 'no-binary-float-expansion', fn='peripheral::excel',
+                   detail='no from_f64_retain / from_f32_retain anywhere; %d float / text conversions in the sheet reader' % n_conv)
+        else:
+            rep.violation('R18e', 'anchor-lost:cell-conversions', detail='anchor lost: no float or text to Decimal conversion found in peripheral::excel')
+
     rep.extra['enumerate_sites_examined'] = n
     rep.extra['by_name_getter_sites'] = getters
 
